@@ -1,6 +1,6 @@
 (* C18 — structural invariant of Model/Timeouts (who holds what) and the residue lemmas. *)
 From Coq Require Import ZArith Lia Bool List.
-From AV Require Import Lib.Base Generated.TimeoutsGen Generated.PoolGen Model.Timeouts Proofs.TimeoutsEff.
+From AV Require Import Lib.Base Generated.TimeoutsGen Model.Timeouts Proofs.TimeoutsEff.
 Open Scope Z_scope.
 
 Definition pc_of (s : state) (t : task) : pc := pcs (tasks s t).
@@ -199,7 +199,8 @@ Proof.
     + intro t. unfold pc_of. simpl. pose proof (i_wait _ _ I t) as X. rewrite W in X. simpl in X.
       split.
       * intro H. split; [apply X; right; assumption|]. intro E. injection E as ->. contradiction.
-      * intros [A B]. destruct (proj2 X (conj A ltac:(discriminate))) as [E|E]; [congruence|assumption].
+      * intros [A B]. assert (N0 : Some t <> (None : option task)) by discriminate.
+        destruct (proj2 X (conj A N0)) as [E|E]; [congruence|assumption].
   - right. exact Pw.
   - simpl. destruct (i_ids _ _ I w) as [H|H]; [assumption|]. unfold pc_of in Pw. rewrite H in Pw. discriminate.
 Qed.
@@ -290,8 +291,8 @@ Lemma NoDup_snoc {A} (l : list A) x : NoDup l -> ~ In x l -> NoDup (l ++ [x]).
 Proof.
   intros ND H. induction l as [|y l IH]; simpl; [constructor; [tauto|constructor]|].
   inversion ND; subst. constructor.
-  - rewrite in_app_iff. simpl. intros [A|[A|[]]]; [contradiction|]. subst. apply H. left. reflexivity.
-  - apply IH; [assumption|]. intro A. apply H. right. assumption.
+  - rewrite in_app_iff. simpl. intros [X|[X|[]]]; [contradiction|]. subst. apply H. left. reflexivity.
+  - apply IH; [assumption|]. intro X. apply H. right. assumption.
 Qed.
 
 Lemma done_give_back_inv s t c :
@@ -364,10 +365,10 @@ Proof.
         destruct (i_ids _ _ I t'); auto.
       - intro t'. tcase t' t; [|apply (i_local _ _ I)].
         split; rewrite Pv; simpl; intros; try discriminate; auto.
-      - intros t' c. tcase t' t; [rewrite Pv; discriminate|apply (i_conn _ _ I)].
-      - intros t1 t2 c. tcase t1 t; [rewrite Pv; discriminate|]. tcase t2 t; [rewrite Pv; discriminate|].
+      - intros t' c0. tcase t' t; [rewrite Pv; discriminate|apply (i_conn _ _ I)].
+      - intros t1 t2 c0. tcase t1 t; [rewrite Pv; discriminate|]. tcase t2 t; [rewrite Pv; discriminate|].
         apply (i_conn_uniq _ _ I).
-      - intros t' fl a c. tcase t' t; [rewrite Pv; discriminate|apply (i_failed_conn _ _ I)]. }
+      - intros t' fl a c0. tcase t' t; [rewrite Pv; discriminate|apply (i_failed_conn _ _ I)]. }
     destruct (idle s) eqn:Ei.
     + destruct (connect_must_wait _).
       * injection H as <-.
@@ -383,16 +384,17 @@ Proof.
         -- intro t'. rewrite in_app_iff. tcase t' t; [left; right; left; reflexivity|].
            destruct (i_ids _ _ I t'); auto.
         -- intro t'. tcase t' t; [|apply (i_local _ _ I)]. split; simpl; intros; try discriminate; auto.
-        -- intros t' c0. tcase t' t; [simpl; discriminate|]. rewrite Ei. apply (i_conn _ _ I).
+        -- intros t' c0. tcase t' t; [simpl; discriminate|]. intros A B.
+           destruct (i_conn _ _ I t' c0 A B) as [X [Y Z]]. rewrite Ei in Z. auto.
         -- intros t1 t2 c0. tcase t1 t; [simpl; discriminate|]. tcase t2 t; [simpl; discriminate|].
            apply (i_conn_uniq _ _ I).
         -- intros t' fl a c0. tcase t' t; [simpl; discriminate|apply (i_failed_conn _ _ I)].
       * injection H as <-. apply acquire_inv.
-        -- rewrite <- Ei. apply G; reflexivity.
+        -- apply G; reflexivity.
         -- left. unfold pc_of. simpl. rewrite upd_same. reflexivity.
         -- simpl. rewrite in_app_iff. right. left. reflexivity.
     + injection H as <-. apply acquire_inv.
-      * rewrite <- Ei. apply G; reflexivity.
+      * apply G; reflexivity.
       * left. unfold pc_of. simpl. rewrite upd_same. reflexivity.
       * simpl. rewrite in_app_iff. right. left. reflexivity.
   - (* EDns *)
@@ -439,8 +441,8 @@ Proof.
     { intros v A B C. apply set_task_inv; [assumption|]. apply same_class_keep; auto. }
     destruct (latched (tasks s t)) as [[| | | |]|]; try discriminate;
       destruct k; destruct (pcs (tasks s t)) as [| | | | |[|]| |] eqn:P; try discriminate;
-      destruct (rp (tasks s t)) as [|[|]|]; try discriminate;
-      try (injection H as <-; apply K; rewrite ?P; reflexivity);
+      destruct (rp (tasks s t)) as [|[|]|]; try discriminate; simpl in H;
+      try (injection H as <-; apply K; simpl; rewrite ?P; reflexivity);
       (destruct (conn_of (tasks s t)) as [c|] eqn:Ec; [|discriminate]; injection H as <-;
        apply wake_inv; apply done_give_back_inv; [assumption|unfold pc_of; rewrite P; reflexivity|assumption]).
   - (* ERead *)
